@@ -286,7 +286,19 @@ def _rules(ck, prog, cfg):
     qd = prog.one("replication::gossip::GossipState::queue_deltas")
     rd = [(b, t) for b, t in qd.calls() if is_callee(t, r"GossipRouter::route_deltas$")]
     mk = [(b, t) for b, t in qd.calls() if is_callee(t, r"GossipMessage::new_targeted_delta$")]
-    ck.check(len(rd) == 1 and len(mk) == 1, "R19.5", "queue_deltas:shape" + _tag(cfg), "queue_deltas no longer routes and builds one targeted message per entry", qd.where())
+    # iterator form: routing_table.into_iter()..map(|(target, deltas)| new_targeted_delta(.., target, deltas))..for_each(push)
+    mk_kid = [(c, b, t) for c in prog.children(qd) for b, t in c.calls() if is_callee(t, r"GossipMessage::new_targeted_delta$")]
+    ck.check(len(rd) == 1 and len(mk) + len(mk_kid) == 1, "R19.5", "queue_deltas:shape" + _tag(cfg), "queue_deltas no longer routes and builds one targeted message per entry", qd.where())
+    for c, b, t in mk_kid:
+        tgt = src_of_operand(c, t["args"][1])
+        dl = src_of_operand(c, t["args"][2])
+        # both come from the closure's one (target, deltas) parameter, and the chain in front of the closure starts at the routing table
+        same = tgt.kind == "path" and dl.kind == "path" and tgt.local is not None and tgt.local == dl.local and 2 <= tgt.local <= c.d["argc"] \
+            and tgt.fields[:1] != dl.fields[:1]
+        cut = [nm for b2, t2 in qd.calls() if is_callee(t2, r"Iterator>?::(take|skip|step_by|take_while|skip_while|nth|last)(::<.*>)?$") for nm in [callee(t2).rsplit("::", 1)[-1]]]
+        ck.check(same and not cut, "R19.5", "queue_deltas:message-per-entry" + _tag(cfg),
+                 "the targeted message is not built from (target, deltas) of one routing-table entry, or the table is cut (%s)" % cut, c.where(t["ln"]),
+                 detail="(target, deltas) from the same entry")
     for b, t in mk:
         tgt = src_of_operand(qd, t["args"][1])
         dl = src_of_operand(qd, t["args"][2])
